@@ -31,7 +31,7 @@ def run(prop, tier, seed, repo):
         results = pool.run_jobs(jobs, repo, budget=20.0)
         for s, (events, status) in zip(sessions, results):
             if status == "timeout":
-                events = events + [{"e": "Direct", "prune": True, "k": "Timeout", "etype": ""}]
+                events = events + [{"e": "Direct", "how": "timeout", "prune": True, "k": "Timeout", "etype": ""}]
             elif status != "ok":
                 raise common.MachineryError("harness failure: %s" % status)
             s["events"] = events
